@@ -31,7 +31,9 @@ pub fn opname(i: &MInstr) -> &'static str {
 pub fn lockstep(c: &StateCase, st: &mut Stats, per_step: &mut dyn FnMut(&mut Rig, &RefCpu, &StepOut) -> Result<(), String>) -> Result<bool, String> {
     let mut rig = build_rig(&c.spec);
     let mut r = build_ref(&c.spec, &mut rig);
-    compare_state(&mut rig, &mut r, &mut std::iter::empty(), "initial state (harness self-check)").map_err(|e| format!("HARNESS: {e}"))?;
+    // (a disagreement about the machine state before the first step would be a harness error; the accessor checks
+    // inside compare_state are about the library even then)
+    compare_state(&mut rig, &mut r, &mut std::iter::empty(), "initial state").map_err(|e| if e.contains("reports (privileged") || e.contains("is_empty()") { e } else { format!("HARNESS: {e} (harness self-check)") })?;
     let mut interesting = false;
     for i in 0..c.steps {
         rig.plan.lock().unwrap().push_back(c.plan[i]);
